@@ -127,7 +127,8 @@ type c10Case struct {
 }
 
 // c10Wraps: the context TTL has to survive the other context helpers and derived contexts around it.
-var c10Wraps = []string{"WithTTL", "WithSkipRead(WithTTL)", "WithTTL(WithSkipRead)", "WithCancel(WithValue(WithTTL))"}
+var c10Wraps = []string{"WithTTL", "WithSkipRead(WithTTL)", "WithTTL(WithSkipRead)", "WithCancel(WithValue(WithTTL))",
+	"WithTTL(WithTTL(ctx, 7h), T) - the inner scope shadows the outer one", "WithTTL(holder := WithTTL(ctx, 0), T, updateExisting) - zero-valued holder filled in later"}
 
 // boundsOK checks t+T(1-J/2) <= E <= t+T(1+J/2) exactly (rational arithmetic) with a slack of
 // 1ns + |T|*2^-50 for the implementation's float64 arithmetic.
@@ -177,7 +178,15 @@ func c10One(cc c10Cell, cs c10Case) (string, string, int) {
 
 			wctx, cancel = context.WithCancel(context.WithValue(cache.WithTTL(ctx, cs.Ctx, false), plantedKey{}, "x"))
 			defer cancel()
+		case 4:
+			wctx = cache.WithTTL(cache.WithTTL(ctx, 7*time.Hour, false), cs.Ctx, false)
+		case 5:
+			wctx = cache.WithTTL(ctx, cache.DefaultTTL, false)
+			_ = cache.WithTTL(wctx, cs.Ctx, true)
 		}
+	} else if cs.Wrap == 4 {
+		// a scope that asks for the default TTL again inside a scope with a per-call TTL
+		wctx = cache.WithTTL(cache.WithTTL(ctx, 7*time.Hour, false), cache.DefaultTTL, false)
 	}
 
 	key := []byte("k")
@@ -312,13 +321,13 @@ func c10Cases(cc c10Cell, tier string) []c10Case {
 	for _, rnd := range rands {
 		switch cc.Level {
 		case "config":
-			cases = append(cases, c10Case{Cfg: 0, Rand: rnd}) // default 5m
+			cases = append(cases, c10Case{Cfg: 0, Rand: rnd}, c10Case{Cfg: 0, Rand: rnd, Wrap: 4}) // default 5m
 			for _, d := range signed() {
 				if d == cache.UnlimitedTTL {
 					continue
 				}
 
-				cases = append(cases, c10Case{Cfg: d, Rand: rnd})
+				cases = append(cases, c10Case{Cfg: d, Rand: rnd}, c10Case{Cfg: d, Rand: rnd, Wrap: 4})
 			}
 		case "context":
 			for _, d := range signed() {
@@ -333,7 +342,7 @@ func c10Cases(cc c10Cell, tier string) []c10Case {
 				}
 			}
 		case "unlimited":
-			cases = append(cases, c10Case{Cfg: cache.UnlimitedTTL, Rand: rnd})
+			cases = append(cases, c10Case{Cfg: cache.UnlimitedTTL, Rand: rnd}, c10Case{Cfg: cache.UnlimitedTTL, Rand: rnd, Wrap: 4})
 		case "unlimited+context":
 			for _, d := range signed() {
 				for w := range c10Wraps {
@@ -400,7 +409,7 @@ func init() {
 	Register(&Prop{
 		ID: "C10", Title: "Every entry's expiry lies within the documented TTL bounds",
 		Cells: c10Cells, Run: c10Run,
-		Rule: "complete grid |TTL| in {1ns,1us,1s,5m,24h,10y,...} x sign x level {config, context, both, unlimited, unlimited+context} x context composition {WithTTL alone, WithSkipRead outside / inside it, derived WithValue+WithCancel context} x ExpirationJitter {-1, default, 0.01, 0.5, 1} " +
+		Rule: "complete grid |TTL| in {1ns,1us,1s,5m,24h,10y,...} x sign x level {config, context, both, unlimited, unlimited+context} x context composition {WithTTL alone, WithSkipRead outside / inside it, derived WithValue+WithCancel context, nested WithTTL scopes (inner shadows outer, also with the default TTL), zero-valued holder updated in place} x ExpirationJitter {-1, default, 0.01, 0.5, 1} " +
 			"x rand.Float64 answer grid incl. both extremes x 3 backends; per case: Write at exact virtual instant t, Walk for ExpireAt, bounds check in exact rational arithmetic, " +
 			"read 1ns before and 1ns after the expiry instant, ExpiredAt == ExpireAt",
 		Assumptions: []string{
